@@ -85,6 +85,7 @@ type sim struct {
 	in     *bufio.Reader
 	out    *os.File
 	tr     *os.File
+	buf    strings.Builder
 	nLine  int // lines received so far
 	nChg   int // change lines seen in config mode
 	asa    *asam.State
@@ -109,9 +110,17 @@ func (s *sim) log(e event) {
 	}
 }
 
+// write queues text; flush sends everything queued with a single write()
+// so that the tool sees one response atomically.
 func (s *sim) write(text string) {
-	text = strings.ReplaceAll(text, "\n", "\r\n")
-	s.out.WriteString(text)
+	s.buf.WriteString(strings.ReplaceAll(text, "\n", "\r\n"))
+}
+
+func (s *sim) flush() {
+	if s.buf.Len() > 0 {
+		s.out.WriteString(s.buf.String())
+		s.buf.Reset()
+	}
 }
 
 func (s *sim) running() string {
@@ -142,6 +151,7 @@ func (s *sim) persist() {
 
 // readLine returns the next input line (without "\n"); ok=false on EOF.
 func (s *sim) readLine() (string, bool) {
+	s.flush()
 	line, err := s.in.ReadString('\n')
 	if err != nil && line == "" {
 		return "", false
@@ -251,6 +261,7 @@ func main() {
 	}
 	s.log(event{Ev: "begin", Hash: s.hash()})
 	defer func() {
+		s.flush()
 		s.persist()
 		s.log(event{Ev: "end", Hash: s.hash()})
 	}()
@@ -426,7 +437,8 @@ func (s *sim) handleCisco(n int, line, kind string) bool {
 				}
 				s.write(line[:off])
 				if b.Split {
-					s.out.Sync()
+					s.flush()
+					time.Sleep(30 * time.Millisecond)
 				}
 				s.write(ban + line[off:] + "\n")
 				echoed = true
@@ -483,6 +495,7 @@ func (s *sim) handleCisco(n int, line, kind string) bool {
 		s.endCfg()
 	case lookup == "exit" && s.mode == "config":
 		// handled by the model (leaves sub-mode or config mode)
+		s.nChg++
 		res, msg = s.execModel(lookup)
 	case !ios && lookup == "sh pager":
 		if s.pager {
